@@ -817,3 +817,33 @@ package raft
 //@ func persistentLog.Replay
 //@   requires l.file != nil
 //@   ensures [torn-tail] tornTail && ioOK ==> err == nil
+
+// ===========================================================================================
+// C13: term/vote storage and snapshot storage (write-temp-then-rename protocol)
+// ===========================================================================================
+
+//@ func encodePersistentState
+//@   flags trusted
+//@   modifies fPos, fSynced
+//@   ensures ioOK ==> err == nil
+//@   ensures !fSynced[w]
+//@   ensures forall g int :: g != w ==> fPos[g] == old(fPos[g]) && fSynced[g] == old(fSynced[g])
+//@ func decodePersistentState
+//@   flags trusted
+//@ extern os.Stat(name) (info, err)
+//@ extern os.ReadFile(name) (data, err)
+
+//@ func persistentStateStorage.SetState
+//@   ensures [cache] err == nil ==> p.state != nil && p.state.term == term && p.state.votedFor == votedFor
+//@   at call os.Rename assert [complete-synced-closed-before-rename] fSynced[tmpFile] && fClosed[tmpFile] && p.state.term == term && p.state.votedFor == votedFor
+//@   at call encodePersistentState assert [writes-new-state] arg0 == tmpFile && arg1.term == term && arg1.votedFor == votedFor
+
+//@ func persistentStateStorage.State
+//@   ensures [cached] old(p.state) != nil ==> err == nil && result0 == old(p.state.term) && result1 == old(p.state.votedFor)
+
+//@ func snapshotFile.Close
+//@   at call os.Rename assert [synced-closed-before-publish] fSynced[s.file] && fClosed[s.file] && arg0 == s.tmpDir && arg1 == s.dir
+//@   ensures [handle-cleared] s.file == nil
+
+//@ func snapshotFile.Discard
+//@   ensures [keeps-published] old(s.file) == nil ==> err == nil
